@@ -52,4 +52,17 @@ structure StartArm where
   recognised : Bool := true
   deriving DecidableEq, Repr
 
+/-- How `rustls_config` treats client certificates (regenerated). -/
+structure TlsSetup where
+  /-- the trust anchors of the client verifier are exactly the certificates of the peers in the
+  server's `NetworkConfig` -/
+  anchorsFromPeers : Bool
+  /-- `.allow_unauthenticated()`: a client without certificate completes the handshake -/
+  clientAuthOptional : Bool
+  /-- `.with_client_cert_verifier(client_verifier)`: the server asks for a client certificate -/
+  verifierInstalled : Bool
+  /-- `false`: shape not recognised by the translator; the other fields are the fallback -/
+  recognised : Bool := true
+  deriving DecidableEq, Repr
+
 end IpaVerif.Auth
